@@ -76,6 +76,7 @@ func runC20(c *Ctx) {
 		"C20.2 every registered hash is fed while the member is written and while it is read; the hash list hands out one hash per name (a repeated name continues the same hash)",
 		"C20.3 the reader cannot succeed without the checksum verification having succeeded; the verification rejects a mismatching digest, an unlisted name, and a listed-but-missing file",
 		"C20.5 the metadata document is encoded from and decoded into the same static type (raft.SnapshotMeta): no detour through a generic map or another struct, which would change 64-bit counters or drop fields without the checksum noticing",
+		"C20.6 the gzip reader is left in multistream mode (no Multistream(false)): stopping after the first gzip member would let content appended behind the archive escape the unread-bytes check",
 		"C20.4 nothing reaches Raft before verification: Read/Verify succeed only below successful read and gzip conclusion, and raft.Restore is called only by snapshot.Restore, below a successful Read",
 	}
 	r.NotDecided = []string{"byte-exact round trip", "detection at every corruption position (tar/gzip framing is library behaviour)"}
@@ -496,6 +497,7 @@ func runC20(c *Ctx) {
 	}
 	r.Floor("C20.4", 5)
 	checkMetaTypeAgreement(c)
+	checkGzipMultistream(c)
 }
 
 func boolKeys(m map[string]ssa.Value) map[string]bool {
@@ -551,5 +553,33 @@ func checkMetaTypeAgreement(c *Ctx) {
 		r.Hold("C20.5", "snapshot/meta.json", p.FuncPos(wf), fmt.Sprintf("encoded from %v, decoded into %v", enc, dec))
 	} else {
 		r.Violate("C20.5", "snapshot/meta.json", p.FuncPos(wf), fmt.Sprintf("the metadata document is encoded from %v and decoded into %v: going through another type (a generic map turns every number into a float64) changes Index/Term/ConfigurationIndex above 2^53 or drops fields, and the checksum is computed over the already altered document, so verification passes and the restored metadata differs from the saved one", enc, dec))
+	}
+}
+
+// C20.6
+func checkGzipMultistream(c *Ctx) {
+	p, r := c.P, c.R
+	n, readers := 0, 0
+	for _, f := range p.SrcFuncs(snapPkg) {
+		for _, in := range callsTo(f, func(cm *ssa.CallCommon) bool { return strings.HasSuffix(core.CalleeName(cm), "gzip.NewReader") }) {
+			_ = in
+			readers++
+		}
+		for _, in := range callsTo(f, func(cm *ssa.CallCommon) bool {
+			g := cm.StaticCallee()
+			return g != nil && g.Name() == "Multistream" && g.Pkg != nil && g.Pkg.Pkg.Path() == "compress/gzip"
+		}) {
+			args := in.(ssa.CallInstruction).Common().Args
+			if v, ok := core.ConstBool(args[len(args)-1]); ok && v {
+				continue
+			}
+			n++
+			r.Violate("C20.6", core.FuncName(f)+"/Multistream", p.Pos(in.Pos()), "the gzip reader is told to stop after the first member: whatever is appended behind the archive (a second member with an unexpected file, a whole second archive, garbage) is never read, so the unread-bytes check cannot see it and the archive is accepted and handed to Raft")
+		}
+	}
+	if readers == 0 {
+		r.MissingInstance("C20.6", "<gzip readers>", "no gzip reader found in package snapshot")
+	} else if n == 0 {
+		r.Hold("C20.6", "snapshot/gzip", "", fmt.Sprintf("%d gzip readers, all in multistream mode", readers))
 	}
 }
